@@ -537,6 +537,95 @@ def compound_rule(chk, db):
         chk.analysis_broken("COMPOUND: only %d compound / binary arithmetic operators of duration / time_point found (floor 6)" % n)
 
 
+def abs_rule(chk, db):
+    """ABS: chrono::abs(d) is `d` for d >= zero and `zero - d` (or `-d`) for d < zero. The returned expression is evaluated for
+    the three orderings of d against zero()."""
+    fs = [f for f in db.by_q.get("etl::chrono::abs", []) if f.get("body") is not None and len(f["params"]) == 1]
+    if not fs:
+        chk.analysis_broken("ABS: etl::chrono::abs no longer exists")
+        return
+    f = fs[0]
+    d = f["params"][0]["n"]
+    construct = astx.sig(f)
+    chk.instance("ABS")
+
+    class NM(Exception):
+        pass
+
+    def is_zero(e):
+        e = astx.strip_casts(e)
+        return e is not None and ((e.get("k") == "call" and astx.callee(e)[0] == "zero" and not e["a"]) or
+                                  (e.get("k") in ("construct", "initlist") and not [a for a in e.get("a", []) if a is not None and (astx.int_value(astx.strip_casts(a)) != 0)]))
+
+    def is_d(e):
+        e = astx.strip_casts(e)
+        return e is not None and e.get("k") == "ref" and e.get("n") == d
+
+    def truth(c, o):
+        c = astx.strip_casts(c)
+        while c is not None and c.get("k") == "paren":
+            c = astx.strip_casts(c.get("e"))
+        if c is None:
+            raise NM()
+        if c.get("k") == "un" and c["op"] == "!":
+            return not truth(c["e"], o)
+        if c.get("k") == "bin" and c["op"] in ("<", "<=", ">", ">=", "==", "!="):
+            l, r, op = c["l"], c["r"], c["op"]
+            if is_zero(l) and is_d(r):
+                l, r, op = r, l, {"<": ">", "<=": ">=", ">": "<", ">=": "<=", "==": "==", "!=": "!="}[op]
+            if is_d(l) and is_zero(r):
+                return {"<": o == "<", "<=": o in "<=", ">": o == ">", ">=": o in ">=", "==": o == "=", "!=": o != "="}[op]
+        raise NM()
+
+    def value(e, o):
+        """'d' | 'neg'"""
+        e = astx.strip_casts(e)
+        while e is not None and e.get("k") == "paren":
+            e = astx.strip_casts(e.get("e"))
+        if e is None:
+            raise NM()
+        if is_d(e):
+            return "d"
+        if e.get("k") == "un" and e["op"] == "-" and is_d(e["e"]):
+            return "neg"
+        if e.get("k") == "bin" and e["op"] == "-" and is_zero(e["l"]) and is_d(e["r"]):
+            return "neg"
+        if e.get("k") == "cond":
+            return value(e["t"] if truth(e["c"], o) else e["f"], o)
+        raise NM()
+    from ..rules import sets as SP
+    bad = unknown = None
+    for o in "<=>":
+        got = None
+        try:
+            for p in SP.paths(f["body"]):
+                ok_path = True
+                for ev in p:
+                    if ev[0] == "cond" and truth(ev[1], o) != ev[2]:
+                        ok_path = False
+                        break
+                    if ev[0] == "ret" and ok_path:
+                        got = value(ev[1], o)
+                if ok_path and got is not None:
+                    break
+        except NM:
+            unknown = True
+            break
+        want = "neg" if o == "<" else "d"
+        if got is None:
+            unknown = True
+            break
+        # -0 == 0: for d == zero both spellings are the same value
+        if got != want and o != "=" and bad is None:
+            bad = (o, got)
+    chk.obligation("ABS", construct, None if unknown else bad is None, evaluations=3)
+    if unknown:
+        chk.unknown_instance("ABS", construct, "the result is not a selection between d and zero() - d on a comparison of d with zero()")
+    elif bad:
+        chk.violation("ABS", construct, "wrong-branch", "%s: for d %s zero() abs returns %s" % (astx.loc(f), bad[0], "zero() - d" if bad[1] == "neg" else "d"),
+                      {"where": astx.loc(f)})
+
+
 def units_rule(chk, db):
     """UNITS: tick counts of two different duration types are never compared, added, subtracted or divided with each other.
     Every expression gets the type tag of the duration it measures: a parameter its declared duration / time_point type,
@@ -640,6 +729,7 @@ def run(chk, tier):
     common_rule(chk, db)
     units_rule(chk, db)
     compound_rule(chk, db)
+    abs_rule(chk, db)
     from ..rules import rel as _REL
     nrel = _REL.check(chk, db, ["_chrono/time_point.hpp", "_chrono/duration.hpp"])      # REL: the relational operators over the ordering domain
     if chk.rule_instances.get("REL", 0) < 8:
